@@ -1,4 +1,4 @@
-//go:build verif
+//go:build verif && (p_all || p_c14)
 
 package props
 
@@ -193,5 +193,30 @@ func c14Run(c *mon.Ctx, csAny any) {
 
 			c.Sample(map[string]any{"case": cs, "highest_set_positions_reported": on, "bitlen_of_value": v.BitLen()})
 		}
+	}
+}
+
+func c14RunConc(c *mon.Ctx, seed uint64) {
+	r := concRng("C14", seed)
+
+	var jobs []func() string
+
+	for i := 0; i < concJobs; i++ {
+		v := gen.Draw(r, oracle.N).X
+		s := mon.Scal(v)
+		jobs = append(jobs, func() string {
+			b := s.Bits()
+			for i := 0; i < 256; i++ {
+				if uint(b[i]) != v.Bit(i) {
+					return fmt.Sprintf("Bits()[%d]=%d for s=%x", i, b[i], v)
+				}
+			}
+
+			return ""
+		})
+	}
+
+	if c.RunConcurrent("Bits", "bits-concurrent", 2000, jobs) {
+		c.Seen("conc", seed)
 	}
 }
